@@ -9,6 +9,7 @@ mod c07;
 mod c08;
 mod c09;
 mod c10;
+mod c11;
 mod c12;
 mod c13;
 mod c15;
@@ -52,6 +53,8 @@ fn main() {
         ("c14", "run") => c10::run(false),
         ("c12", "gen") => c12::gen(seed, thorough),
         ("c12", "run") => c12::run(),
+        ("c11", "gen") => c11::gen(seed, thorough),
+        ("c11", "run") => c11::run(),
         ("c13", "gen") => c13::gen(seed, thorough),
         ("c13", "run") => c13::run(),
         ("c15", "gen") => c15::gen(seed, thorough),
